@@ -126,7 +126,9 @@ def run(ctx):
     # 5. decide
     by_key = {}
     for t in bad["P"]:
-        k = tkey(t) if t["scenario"]["phase"] != "upstream" else "slow-origin-exchange-cut"
+        k = tkey(t)
+        if t["scenario"]["phase"] == "upstream":
+            k = "slow-head-exchange-cut" if "slow-head" in t["scenario"]["name"] else "slow-origin-exchange-cut"
         by_key.setdefault(k, []).append(t)
     for k, ts in sorted(by_key.items()):
         t = min(ts, key=lambda x: len(json.dumps(x["scenario"])))
